@@ -169,6 +169,12 @@ pub fn run(spec: RunSpec) -> ! {
         fin_registered: BTreeMap::new(),
         fin_popped: BTreeMap::new(),
         fin_ready: BTreeMap::new(),
+        fin_unreachable_seen: BTreeSet::new(),
+        probe_requested: false,
+        block_counts: [0; MAX_MUT],
+        fork_epoch: 0,
+        alloc_slow_iters: BTreeMap::new(),
+        used_after_gc: Vec::new(),
         ephemerons: Vec::new(),
         satb_keep: BTreeSet::new(),
         satb_active: false,
@@ -255,8 +261,6 @@ fn final_phase() {
     }
     // End-of-run checks with the world quiescent (all other mutators are parked for good).
     with_world(|w| {
-        let found = world::heap_walk(w, "at end of run");
-        let _ = found;
         // C15: every injected packet ran exactly once
         for (seq, n) in w.injected_pending.iter() {
             if *n != 1 {
@@ -348,12 +352,16 @@ fn do_alloc(mid: usize, req: AllocReq) -> Option<(u64, usize)> {
         w.pauses_done
     });
     let oom_before = with_world(|w| w.oom_events.len());
-    let step_before = simrt::step();
+    let blocks_before = with_world(|w| w.block_counts[mid]);
+    let my_tid = simrt::current_tid();
+    with_world(|w| {
+        w.alloc_slow_iters.insert(my_tid, 0);
+    });
     let addr = match req.opts {
         None => mm::alloc(m, size, align, offset, semantics),
         Some(o) => mm::alloc_with_options(m, size, align, offset, semantics, o),
     };
-    crate::probes::after_alloc(mid, &req.opts, addr, size, pauses_before, oom_before, step_before);
+    crate::probes::after_alloc(mid, &req.opts, addr, size, pauses_before, oom_before, blocks_before);
     if addr.is_zero() {
         with_world(|w| w.count("alloc_returned_null"));
         return None;
@@ -430,7 +438,9 @@ fn do_alloc(mid: usize, req: AllocReq) -> Option<(u64, usize)> {
                 sem,
                 fields: vec![0; nrefs],
                 addr: raw,
-                pinned: false,
+                pin_ops: 0,
+                pins_true: 0,
+                unpins_true: 0,
                 alloc_pause: pause,
                 owner: mid,
                 space: got_space,
@@ -442,6 +452,21 @@ fn do_alloc(mid: usize, req: AllocReq) -> Option<(u64, usize)> {
         *w.counters.entry(format!("alloc_in_{}", got_space)).or_insert(0) += 1;
     });
     Some((id, raw))
+}
+
+pub fn do_alloc_simple(mid: usize, size: usize, nrefs: usize, kind: u8) -> Option<(u64, usize)> {
+    do_alloc(
+        mid,
+        AllocReq {
+            size,
+            align: 8,
+            offset: 0,
+            sem: SEM_DEFAULT,
+            nrefs,
+            kind,
+            opts: None,
+        },
+    )
 }
 
 /// Pick a writable field of `id` for mutator `mid` at or after `field`.
